@@ -12,7 +12,7 @@ import numpy as np
 from . import catalog, seams
 from .tensors import (DT, DTNAME, compare, make_tensor, max_abs, snap,
                       snap_digest)
-from .world import (CONVERT_TARGET, apply_convert, call_with_mode, do_restart,
+from .world import (CONVERT_TARGET, apply_convert, call_with_mode, do_restart, load_other,
                     func_args, module_state_snap, run_func, select_backward,
                     thaw_pyramid)
 
@@ -36,6 +36,9 @@ def build_from_recipe(L, recipe):
             mod = catalog.build(st[1], st[2])
         elif st[0] == "convert":
             mod = apply_convert(mod, st[1], torch)
+        elif st[0] == "load_other":
+            torch.set_default_dtype(DT[st[3]])
+            mod = load_other(mod, st)
         elif st[0] == "restart":
             torch.set_default_dtype(DT[st[2]])
             mod = do_restart(L, mod, recipe[:i], st)
@@ -45,7 +48,15 @@ def build_from_recipe(L, recipe):
 def build_direct(L, recipe, cur_dtype):
     """A module constructed directly in precision cur_dtype (C16-ii)."""
     L.torch.set_default_dtype(DT[cur_dtype])
-    return catalog.build(recipe[0][1], recipe[0][2])
+    mod = catalog.build(recipe[0][1], recipe[0][2])
+    for st in recipe[1:]:
+        if st[0] == "load_other":
+            # the values come from another configuration, built under the default
+            # dtype that was in force when the user built that checkpoint
+            L.torch.set_default_dtype(DT[st[3]])
+            mod = load_other(mod, st)
+            L.torch.set_default_dtype(DT[cur_dtype])
+    return mod
 
 
 def dtype_path(recipe):
